@@ -566,12 +566,63 @@ def rule_shapes(facts):
     return r
 
 
+def rule_state_writers(facts, rid="C01.R7"):
+    """The decoder state (automaton state, repeat distances, every probability table) is touched only by the symbol
+    decoder family (the functions carrying the `update` flag), the constructor and reset_state; the size in effect only
+    by set_unpacked_size; the carry-over buffer only by the streaming loop."""
+    from rules import C05
+    r = report.RuleResult(rid, "the decoder state is modified only by the symbol decoder, the constructor and reset_state")
+    adt = facts.adt("decode::lzma::DecoderState")
+    root, fam = C05.update_family(facts)
+    r.need("DecoderState and the update-flag family", adt is not None and root is not None)
+    if adt is None or root is None:
+        return r
+    famnames = {short(b.name) for b in fam.values()}
+    init = ("DecoderState::new", "DecoderState::reset_state")
+    special = {"unpacked_size": ("DecoderState::new", "DecoderState::set_unpacked_size"),
+               "partial_input_buf": ("DecoderState::new", "DecoderState::process_mode", "DecoderState::read_partial_input_buf")}
+    fields = [f["name"] for f in adt["variants"][0]["fields"]]
+    writers = {}
+    for b in facts.bodies:
+        if b.promoted is not None:
+            continue
+        fn = short(b.name)
+        for blk in b.blocks:
+            if blk.cleanup:
+                continue
+            for s in blk.stmts:
+                if s.k != "assign":
+                    continue
+                for pr in s.place.proj:
+                    if pr[0] == "field" and pr[4] and pr[4].endswith("lzma::DecoderState"):
+                        writers.setdefault(pr[2], set()).add((fn, blk.idx, b))
+                if s.rv.k == "ref" and s.rv.mut:
+                    for pr in s.rv.place.proj:
+                        if pr[0] == "field" and pr[4] and pr[4].endswith("lzma::DecoderState"):
+                            writers.setdefault(pr[2], set()).add((fn, blk.idx, b))
+    r.sites = len(fields)
+    for f in fields:
+        allowed = special.get(f)
+        bad = []
+        for (fn, bb, b) in sorted(writers.get(f, ()), key=lambda x: (x[0], x[1])):
+            okk = any(fn.endswith(x) for x in (allowed or init)) or (allowed is None and fn in famnames)
+            if not okk:
+                bad.append((fn, bb, b))
+        if bad:
+            fn, bb, b = bad[0]
+            r.bad("state-writers|%s|%s" % (f, fn.split("::")[-1]), "`%s` of the decoder state is written (or lent mutably) in %s, outside the symbol "
+                  "decoder and the (re)initialisers" % (f, fn), pat.where(b, bb))
+        else:
+            r.ok("who-writes", {"field": f, "writers": sorted({x[0].split("::")[-1] for x in writers.get(f, ())})})
+    return r
+
+
 def run(ctx, t0):
     facts = ctx.facts()
     pat.FACTS = facts
     from rules import rcterms
     rules = [rule_header(facts), rule_automaton(facts), rule_contexts(facts), rule_window(facts), rule_shapes(facts),
-             rcterms.rule_rangedecoder(facts)]
+             rcterms.rule_rangedecoder(facts), rule_state_writers(facts)]
     expl = ("Static, structural clauses only: the finite tables (state automaton constants and thresholds, repeat "
             "rotation, table shapes and initialisers), the index/offset/length terms and the who-writes facts of the "
             "circular window are extracted from MIR and compared with the format's. This is a necessary condition of "
